@@ -2040,9 +2040,29 @@ func ruleStreamReducersDrain(c *Ctx, r *R) {
 			continue
 		}
 		n := 0
-		for _, e := range drainExits(fn, sp, 0) {
-			if len(e.Ret.Results) == 0 || !isNilConst(returnedValue(e.Ret, len(e.Ret.Results)-1)) {
-				continue // an error is handed on: other rules
+		exits, errOfDrainingHelper := drainExits(fn, sp, 0)
+		for _, e := range exits {
+			if len(e.Ret.Results) == 0 {
+				continue
+			}
+			if ev := returnedValue(e.Ret, len(e.Ret.Results)-1); !isNilConst(ev) {
+				if errOfDrainingHelper(resolveVal(ev)) {
+					// err := each(ctx, s, …); return acc, err - the error is the draining helper's own: nil only after End
+					n++
+					r.discharged(name+"|drains#"+itoa(n), retPos(e.Ret), "the error returned is that of a helper of the package that answers nil only after the source's End")
+					continue
+				}
+				// an error is handed on: other rules - unless it may as well be nil (`if !ok { return acc, err }` after
+				// item, ok, err := advance(ctx, s)): not under a test that it is not
+				nonNil := false
+				for _, g := range guardsOf(e.Ret.Block()) {
+					if cf, ok := g.asCmp(); ok && cf.op == token.NEQ && isNilConst(cf.y) && resolveVal(cf.x) == resolveVal(ev) {
+						nonNil = true
+					}
+				}
+				if _, isEx := resolveVal(ev).(*ssa.Extract); nonNil || !isEx {
+					continue
+				}
 			}
 			n++
 			r.ok(e.States == ss(1), name+"|drains#"+itoa(n), retPos(e.Ret), funcShort(fn)+" reports success on a path on which the stream was not read to its end (its Next has not answered End, and it was not handed to a reducer that drains it): the items are not consumed and an error the source would have returned is never seen")
@@ -2057,7 +2077,7 @@ func ruleStreamReducersDrain(c *Ctx, r *R) {
 // is reached on the edge on which sp.Next answered End, by handing sp to a reducer of the package, on the edge on which a
 // helper of the package that was handed sp answered a nil error (every nil-error exit of the helper is itself in state 1), and
 // on the edge on which such a helper's boolean "there was an item" result is false.
-func drainExits(fn *ssa.Function, sp *ssa.Parameter, depth int) []pfExit {
+func drainExits(fn *ssa.Function, sp *ssa.Parameter, depth int) ([]pfExit, func(ssa.Value) bool) {
 	isSrc := func(v ssa.Value) bool {
 		for _, lf := range valueLeaves(v, nil, 0) {
 			if resolveVal(lf.v) != ssa.Value(sp) {
@@ -2093,7 +2113,8 @@ func drainExits(fn *ssa.Function, sp *ssa.Parameter, depth int) []pfExit {
 	}
 	helperDrains := func(h *ssa.Function, hp *ssa.Parameter, boolIdx int) bool {
 		any := false
-		for _, e := range drainExits(h, hp, depth+1) {
+		hexits, _ := drainExits(h, hp, depth+1)
+		for _, e := range hexits {
 			nres := len(e.Ret.Results)
 			if nres == 0 {
 				return false
@@ -2168,17 +2189,28 @@ func drainExits(fn *ssa.Function, sp *ssa.Parameter, depth int) []pfExit {
 		if !strings.HasSuffix(path(cf.y), "End") {
 			return 0, false
 		}
-		ex, ok := cf.x.(*ssa.Extract)
-		if !ok {
+		// the error of s.Next(ctx) - of every Next it may come from (item, err := s.Next(ctx); for ; err == nil; item, err = s.Next(ctx))
+		lvs := valueLeaves(cf.x, nil, 0)
+		if len(lvs) == 0 {
 			return 0, false
 		}
-		nx, ok := ex.Tuple.(*ssa.Call)
-		if !ok || !nx.Call.IsInvoke() || nx.Call.Method.Name() != "Next" || !isSrc(nx.Call.Value) {
-			return 0, false
+		for _, lf := range lvs {
+			ex, ok := lf.v.(*ssa.Extract)
+			if !ok {
+				return 0, false
+			}
+			nx, ok := ex.Tuple.(*ssa.Call)
+			if !ok || !nx.Call.IsInvoke() || nx.Call.Method.Name() != "Next" || !isSrc(nx.Call.Value) {
+				return 0, false
+			}
 		}
 		return ss(1), true
 	}
-	return pf.Exits(fn, ss(0))
+	errOfDrainingHelper := func(v ssa.Value) bool {
+		h, hp, idx, ok := helperOf(v)
+		return ok && idx == h.Signature.Results().Len()-1 && helperDrains(h, hp, -1)
+	}
+	return pf.Exits(fn, ss(0)), errOfDrainingHelper
 }
 
 // C07.buffer-index-guarded (seed C07-r12m2): a constant index into a slice kept in a field of a stream / iterator wrapper
